@@ -50,10 +50,31 @@ class ShardResult:
         self.extra = {}
 
 
-def _mk_body(mod, ctx, res, known_sigs, shrink_cap):
+class CaseTimeout(BaseException):
+    """One case ran longer than the per-case cap (an endless loop in the code under test, most likely)."""
+
+
+def _mk_body(mod, ctx, res, known_sigs, shrink_cap, case_cap=None):
+    import signal
     from vlib import jsonx
     from vlib.kernel import Violation
     state = {'first_fail': None}
+
+    def _alarm(signum, frame):
+        raise CaseTimeout()
+
+    def guarded_check(case):
+        # a watchdog per case: a case that does not end is abandoned and counted as inconclusive (never as a violation,
+        # never as a pass); the run goes on with the next case
+        if not case_cap:
+            return mod.check(case, ctx)
+        old = signal.signal(signal.SIGALRM, _alarm)
+        signal.setitimer(signal.ITIMER_REAL, case_cap)
+        try:
+            return mod.check(case, ctx)
+        finally:
+            signal.setitimer(signal.ITIMER_REAL, 0)
+            signal.signal(signal.SIGALRM, old)
 
     def body(case):
         # after the shrink time cap: let everything pass so Hypothesis stops quickly;
@@ -66,9 +87,13 @@ def _mk_body(mod, ctx, res, known_sigs, shrink_cap):
         case = jsonx.loads(jsonx.dumps(case))
         try:
             try:
-                info = mod.check(case, ctx)
+                info = guarded_check(case)
             finally:
                 ctx.clean_case()
+        except CaseTimeout:
+            res.extra['cases_abandoned_after_the_per_case_time_cap'] = res.extra.get('cases_abandoned_after_the_per_case_time_cap', 0) + 1
+            res.budget_exhausted = True
+            return
         except Violation as v:
             res.cases += 1
             res.evals += 1
@@ -130,7 +155,8 @@ def _worker(args):
         ctx.seed = seed
         budget = mod.BUDGET[tier]
         shrink_cap = 20 if tier == 'quick' else 90
-        body = _mk_body(mod, ctx, res, known_sigs, shrink_cap)
+        case_cap = getattr(mod, 'CASE_CAP', {}).get(tier, 90 if tier == 'quick' else 400)
+        body = _mk_body(mod, ctx, res, known_sigs, shrink_cap, case_cap)
         if kind == 'cases':
             # explicit cases (replays / enumerated product): no Hypothesis involved
             for case in payload:
